@@ -308,3 +308,196 @@ pub fn merkle(r: &mut Rng, n: usize, thorough: bool, out: &mut Out) {
         out.emit("reset", "ok");
     }
 }
+
+// ------------------------------------------------------------------------------------------------------------------
+// `stdcode` stream: the serialisation glue the state transition function relies on (MelModel/Stdcode.lean)
+//   sdoc <hex>   stdcode::deserialize::<StakeDoc>           -> ok pk:start:end:syms | err
+//   powd <hex>   stdcode::deserialize::<(u32, Vec<u8>)>     -> ok difficulty proofhex | err
+//   txlen <tx>   stdcode::serialize(tx).len()               -> len N
+
+/// bincode varint of `v` written with the marker `width` (0 = single byte; 2, 4, 8, 16 = literal width) — possibly
+/// wider than necessary (bincode's reader accepts that), possibly too narrow (the value is then truncated)
+fn varint_with(v: u128, width: u8) -> Vec<u8> {
+    match width {
+        0 => vec![v as u8],
+        2 => { let mut o = vec![251u8]; o.extend_from_slice(&(v as u16).to_le_bytes()); o }
+        4 => { let mut o = vec![252u8]; o.extend_from_slice(&(v as u32).to_le_bytes()); o }
+        8 => { let mut o = vec![253u8]; o.extend_from_slice(&(v as u64).to_le_bytes()); o }
+        16 => { let mut o = vec![254u8]; o.extend_from_slice(&v.to_le_bytes()); o }
+        _ => vec![255u8],
+    }
+}
+
+fn minimal_width(v: u128) -> u8 {
+    if v <= 250 { 0 } else if v < 1 << 16 { 2 } else if v < 1 << 32 { 4 } else if v < 1 << 64 { 8 } else { 16 }
+}
+
+fn some_width(r: &mut Rng, v: u128) -> u8 {
+    match r.below(10) {
+        0 => *r.pick(&[0u8, 2, 4, 8, 16]),
+        1 => 255,
+        2 | 3 => { let m = minimal_width(v); *r.pick(&[2u8, 4, 8, 16]).max(&m) }
+        _ => minimal_width(v),
+    }
+}
+
+const VARINT_EDGES: [u128; 22] = [
+    0, 1, 2, 249, 250, 251, 252, 253, 254, 255, 256, 65535, 65536, (1 << 32) - 1, 1 << 32, (1 << 32) + 1,
+    u64::MAX as u128, u64::MAX as u128 + 1, 1 << 120, (1 << 120) + 1, u128::MAX - 1, u128::MAX,
+];
+
+fn edge_value(r: &mut Rng) -> u128 {
+    match r.below(4) {
+        0 => *r.pick(&VARINT_EDGES),
+        1 => r.u128() >> (r.below(128) as u32),
+        2 => r.below(300) as u128,
+        _ => (1u128 << r.below(128)) + r.below(3) as u128,
+    }
+}
+
+fn mangle(r: &mut Rng, mut b: Vec<u8>) -> Vec<u8> {
+    match r.below(12) {
+        0 => { let k = 1 + r.below(3) as usize; b.truncate(b.len().saturating_sub(k)); b }
+        1 => { let k = 1 + r.below(3) as usize; b.extend(r.bytes(k)); b }
+        2 => { if !b.is_empty() { let i = r.below(b.len() as u64) as usize; b[i] ^= 1 << r.below(8); } b }
+        3 => { if !b.is_empty() { let i = r.below(b.len() as u64) as usize; b.remove(i); } b }
+        _ => b,
+    }
+}
+
+fn sdoc_line(bytes: &[u8]) -> (String, String) {
+    let res = match silent(|| stdcode::deserialize::<StakeDoc>(bytes)) {
+        Ok(Ok(d)) => format!("ok {}", crate::statefmt::stakedoc_text(&d)),
+        Ok(Err(_)) => "err".to_string(),
+        Err(_) => "panic".to_string(),
+    };
+    (format!("sdoc {}", crate::fmt::hxd(bytes)), res)
+}
+
+fn powd_line(bytes: &[u8]) -> (String, String) {
+    let res = match silent(|| stdcode::deserialize::<(u32, Vec<u8>)>(bytes)) {
+        Ok(Ok((d, p))) => format!("ok {} {}", d, crate::fmt::hxd(&p)),
+        Ok(Err(_)) => "err".to_string(),
+        Err(_) => "panic".to_string(),
+    };
+    (format!("powd {}", crate::fmt::hxd(bytes)), res)
+}
+
+fn txlen_line(tx: &Transaction) -> (String, String) {
+    let res = match silent(|| stdcode::serialize(tx).map(|b| b.len())) {
+        Ok(Ok(n)) => format!("len {}", n),
+        Ok(Err(_)) => "err".to_string(),
+        Err(_) => "panic".to_string(),
+    };
+    (format!("txlen {}", crate::statefmt::tx_text(tx)), res)
+}
+
+fn some_len(r: &mut Rng, thorough: bool) -> usize {
+    match r.below(12) {
+        0 => 250,
+        1 => 251,
+        2 => 252,
+        3 => 300,
+        4 => if thorough { 65535 } else { 1000 },
+        5 => if thorough { 65536 } else { 1001 },
+        6 | 7 => 0,
+        _ => r.below(40) as usize,
+    }
+}
+
+fn some_denom(r: &mut Rng) -> Denom {
+    match r.below(6) {
+        0 => Denom::Mel,
+        1 => Denom::Sym,
+        2 => Denom::Erg,
+        3 => Denom::NewCustom,
+        _ => { let mut h = [0u8; 32]; h.copy_from_slice(&r.bytes(32)); Denom::Custom(TxHash(tmelcrypt::HashVal(h))) }
+    }
+}
+
+pub fn stdcode_stream(r: &mut Rng, n: usize, thorough: bool, out: &mut Out) {
+    // every single byte, and every marker followed by too little / just enough
+    for b in 0..=255u8 {
+        out.emit2(powd_line(&[b]));
+        out.emit2(powd_line(&[b, 0]));
+        let mut v = vec![7u8; 32];
+        v.extend_from_slice(&[b, 1, 2]);
+        out.emit2(sdoc_line(&v));
+        let mut v = vec![7u8; 32];
+        v.extend_from_slice(&[1, 2, b]);
+        out.emit2(sdoc_line(&v));
+    }
+    out.emit2(sdoc_line(&[]));
+    out.emit2(powd_line(&[]));
+    for e in VARINT_EDGES {
+        for w in [0u8, 2, 4, 8, 16, 255] {
+            let mut v = vec![9u8; 32];
+            v.extend(varint_with(e, w));
+            v.extend(varint_with(e, minimal_width(e).min(8)));
+            v.extend(varint_with(e, w));
+            out.emit2(sdoc_line(&v));
+            let mut p = varint_with(e, w);
+            p.extend(varint_with(3, 0));
+            p.extend_from_slice(&[1, 2, 3]);
+            out.emit2(powd_line(&p));
+        }
+    }
+    for _ in 0..n {
+        // stake documents
+        let mut pk = r.bytes(32);
+        if r.chance(1, 12) { let k = *r.pick(&[0usize, 1, 31, 33]); pk = r.bytes(k); }
+        let (a, b, c) = (edge_value(r), edge_value(r), edge_value(r));
+        let mut v = pk.clone();
+        v.extend(varint_with(a, some_width(r, a)));
+        v.extend(varint_with(b, some_width(r, b)));
+        v.extend(varint_with(c, some_width(r, c)));
+        let v = mangle(r, v);
+        out.emit2(sdoc_line(&v));
+        // the real encoder's output decodes to what went in
+        if pk.len() == 32 {
+            let mut k = [0u8; 32];
+            k.copy_from_slice(&pk);
+            let d = StakeDoc { pubkey: tmelcrypt::Ed25519PK(k), e_start: a as u64, e_post_end: b as u64, syms_staked: CoinValue(c) };
+            out.emit2(sdoc_line(&stdcode::serialize(&d).unwrap()));
+        }
+        // proof-of-work payloads
+        let d = edge_value(r);
+        let plen = some_len(r, thorough);
+        let proof = r.bytes(plen);
+        let promised = match r.below(8) { 0 => plen as u128 + 1, 1 => (plen as u128).saturating_sub(1), 2 => edge_value(r), _ => plen as u128 };
+        let mut p = varint_with(d, some_width(r, d));
+        p.extend(varint_with(promised, some_width(r, promised)));
+        p.extend_from_slice(&proof);
+        let p = mangle(r, p);
+        out.emit2(powd_line(&p));
+        if d <= u32::MAX as u128 {
+            out.emit2(powd_line(&stdcode::serialize(&(d as u32, proof.clone())).unwrap()));
+        }
+        // raw noise
+        if r.chance(1, 3) {
+            let k = r.below(80) as usize;
+            let noise = r.bytes(k);
+            out.emit2(sdoc_line(&noise));
+            out.emit2(powd_line(&noise));
+        }
+        // the serialised size of a transaction
+        let kinds = [TxKind::Normal, TxKind::Stake, TxKind::DoscMint, TxKind::Swap, TxKind::LiqDeposit, TxKind::LiqWithdraw, TxKind::Faucet];
+        let nin = match r.below(10) { 0 => 250, 1 => 251, 2 => 300, _ => r.below(4) as usize };
+        let nout = match r.below(10) { 0 => 250, 1 => 251, 2 => 255, _ => r.below(5) as usize };
+        let tx = Transaction {
+            kind: *r.pick(&kinds),
+            inputs: (0..nin).map(|_| { let mut h = [0u8; 32]; h.copy_from_slice(&r.bytes(32)); CoinID { txhash: TxHash(tmelcrypt::HashVal(h)), index: r.next() as u8 } }).collect(),
+            outputs: (0..nout).map(|_| {
+                let mut h = [0u8; 32];
+                h.copy_from_slice(&r.bytes(32));
+                let adl = if nout > 10 { r.below(3) as usize } else { some_len(r, thorough) };
+                CoinData { covhash: Address(tmelcrypt::HashVal(h)), value: CoinValue(edge_value(r)), denom: some_denom(r), additional_data: r.bytes(adl).into() }
+            }).collect(),
+            fee: CoinValue(edge_value(r)),
+            covenants: (0..r.below(4)).map(|_| { let l = some_len(r, thorough); r.bytes(l).into() }).collect(),
+            data: { let l = some_len(r, thorough); r.bytes(l).into() },
+            sigs: (0..r.below(4)).map(|_| { let l = *r.pick(&[0usize, 1, 64, 64, 64, 250, 251]); r.bytes(l).into() }).collect(),
+        };
+        out.emit2(txlen_line(&tx));
+    }
+}
